@@ -889,10 +889,12 @@ func (x *agx) checkC48(w *agxWal) *vx.Fail {
 			sig = "accepted-sample-without-series-record/" + op
 			msg = fmt.Sprintf("after %s: committed %s is in the WAL but no series record for its ref precedes it in replay order. history %v; wal: %s", x.lastOp, id, x.hist, w.Digest)
 		}
-		if orphanInSeg[k] > 0 {
-			// The known limitations all concern samples that a CHECKPOINT kept by time while it
+		if orphanInSeg[k] > 0 && race != "/gc-while-pending" {
+			// The duplicate-ref limitation concerns samples that a CHECKPOINT kept by time while it
 			// dropped their series record by segment. A sample still sitting in a live segment whose
-			// series record is gone is a different failure: never filed under a known precondition.
+			// series record is gone is a different failure and is not filed under that precondition.
+			// (A series collected while an appender held samples for it is different: its late commit
+			// writes samples of a ref nobody tracks any more, wherever they land.)
 			sig = "accepted-sample-without-series-record/in-live-segment/" + op
 			race = ""
 		}
@@ -929,24 +931,24 @@ func (x *agx) checkC15(w *agxWal) *vx.Fail {
 		}
 		orphan[fmt.Sprintf("%s@%d=%s", it.Kind, it.T, it.Val)]++
 		// The agent tracks collected series (db.deleted) precisely so that no sample is left
-		// without its series record, old or not. The known limitations all concern samples that a
-		// CHECKPOINT kept by time while it dropped their series record by segment: only an orphan
-		// inside the checkpoint, of a series for which the precondition was observed (the series
-		// is identified through the untruncated log), gets the known signature. An orphan in a
-		// live segment is always a plain violation.
+		// without its series record, old or not. The duplicate-ref and backwards-time limitations
+		// concern samples that a CHECKPOINT kept by time while it dropped their series record by
+		// segment: only an orphan inside the checkpoint, of a series for which the precondition was
+		// observed (the series is identified through the untruncated log), gets those signatures;
+		// in a live segment it is a plain violation.
 		known := ""
-		if it.Seg == -1 {
-			for _, name := range vx.SortedKeys(sh.RefNames[it.Ref]) {
-				if known == "" {
-					known = x.m.known(name)
-				}
-			}
-			if known == "" && x.mintWentBack {
-				known = "/truncation-time-went-backwards"
+		for _, name := range vx.SortedKeys(sh.RefNames[it.Ref]) {
+			if known == "" {
+				known = x.m.known(name)
 			}
 		}
+		if known == "" && x.mintWentBack {
+			known = "/truncation-time-went-backwards"
+		}
 		sig := "agent-record-without-preceding-series-record" + known
-		if it.Seg >= 0 {
+		if it.Seg >= 0 && known != "/gc-while-pending" {
+			// (a series collected while an appender held samples for it: the late commit writes
+			// samples of a ref nobody tracks any more, wherever they land)
 			sig = "agent-record-without-preceding-series-record/in-live-segment"
 		}
 		msg := fmt.Sprintf("after %s: WAL (seg %d, -1=checkpoint) holds a %s record t=%d for ref %d, but no series record for that ref precedes it in replay order (truncation time %d). history %v; wal: %s", x.lastOp, it.Seg, it.Kind, it.T, it.Ref, owedFrom, x.hist, w.Digest)
